@@ -44,6 +44,10 @@ ARGS = {
     "2.5": dict(t="double", const=True, holder="val", value=2.5), "dvar": dict(t="double", const=False, holder="sp", value=1.5),
     "'a'": dict(t="char", const=True, holder="val", value=97), "true": dict(t="bool", const=True, holder="val", value=True),
     "7u": dict(t="uint", const=True, holder="val", value=7), "9l": dict(t="long", const=True, holder="val", value=9),
+    # values that do not survive a wrong-width / wrong-signedness intermediate
+    "3000000000u": dict(t="uint", const=True, holder="val", value=3000000000), "0xFFFFFFFFu": dict(t="uint", const=True, holder="val", value=4294967295),
+    "(-5)": dict(t="int", const=True, holder="val", value=-5), "5000000000l": dict(t="long", const=True, holder="val", value=5000000000),
+    "(-3l)": dict(t="long", const=True, holder="val", value=-3), "200": dict(t="int", const=True, holder="val", value=200),
     "\"lit\"": dict(t="str", const=True, holder="val", value="lit"), "svar": dict(t="str", const=False, holder="sp", value="sv"),
     "a_sref": dict(t="str", const=False, holder="ref", addr="s_obj", value="sobj"), "a_scref": dict(t="str", const=True, holder="ref", addr="s_obj", value="sobj"),
     "a_bref": dict(t="Base", const=False, holder="ref", dyn="Base", addr="base", value=1), "a_bcref": dict(t="Base", const=True, holder="ref", dyn="Base", addr="base", value=1),
@@ -145,12 +149,21 @@ def expected_value(arg, param):
         return str(int(v)) if not isinstance(v, str) else None
     if pt in ("int", "uint", "long"):
         if isinstance(v, (int, float)) and not isinstance(v, bool):
-            return str(int(v))
+            # the C++ conversion to the parameter type (modular for integers; double -> integer truncates, all catalogue doubles are in range)
+            i = int(v)
+            bits = {"int": 32, "uint": 32, "long": 64}[pt]
+            i &= (1 << bits) - 1
+            if pt != "uint" and i >= 1 << (bits - 1):
+                i -= 1 << bits
+            return str(i)
         return None
     if pt == "double":
         return str(int(float(v) * 1000)) if isinstance(v, (int, float)) and not isinstance(v, bool) else None
     if pt == "char":
-        return "c:%d" % int(v) if isinstance(v, (int, float)) and not isinstance(v, bool) else None
+        if isinstance(v, (int, float)) and not isinstance(v, bool):
+            i = int(v) & 0xff
+            return "c:%d" % (i - 256 if i >= 128 else i)
+        return None
     if pt == "bool":
         return ("true" if v else "false") if isinstance(v, bool) else None
     if pt == "str":
